@@ -318,6 +318,15 @@ func (b *ShelleyTransactionBody) UnmarshalCBOR(cborData []byte) error {
 	return nil
 }
 
+// MarshalCBOR returns the original bytes of a decoded body, so that a
+// transaction reassembled from a block keeps its on-chain size and hash.
+func (b *ShelleyTransactionBody) MarshalCBOR() ([]byte, error) {
+	if b.Cbor() != nil {
+		return b.Cbor(), nil
+	}
+	return cbor.EncodeGeneric(b)
+}
+
 func (b *ShelleyTransactionBody) Inputs() []common.TransactionInput {
 	items := b.TxInputs.Items()
 	ret := make([]common.TransactionInput, len(items))
@@ -586,6 +595,14 @@ func (w *ShelleyTransactionWitnessSet) UnmarshalCBOR(cborData []byte) error {
 	*w = ShelleyTransactionWitnessSet(tmp)
 	w.SetCbor(cborData)
 	return nil
+}
+
+// MarshalCBOR returns the original bytes of a decoded witness set.
+func (w *ShelleyTransactionWitnessSet) MarshalCBOR() ([]byte, error) {
+	if w.Cbor() != nil {
+		return w.Cbor(), nil
+	}
+	return cbor.EncodeGeneric(w)
 }
 
 func (w ShelleyTransactionWitnessSet) Vkey() []common.VkeyWitness {
